@@ -47,12 +47,14 @@ PairVariants(n, acct, acct2) ==
     <<Some(R(n, "plain")), Some("BAD")>>, <<Some(R(n, "plain")), Some("")>>, <<Some(R(0, "bad_empty")), Some(acct)>> }
 AskPairs == IF Tier = "quick"
             THEN {<<Some(R(5000, "t0")), Some("askfee2")>>, <<Some(R(1000, "plain")), Some("askfee1")>>,
+                  <<Some(R(5000, "t0")), Some("")>>, <<Some(R(2500, "plain")), Some("askfee1")>>,
                   <<Some(R(0, "bad_empty")), Some("")>>, <<Some(R(5000, "plain")), NoStr>>, <<NoDec, Some("askfee1")>>,
                   <<Some(R(0, "bad_word")), Some("askfee1")>>, <<Some(R(5000, "plain")), Some("BAD")>>}
             ELSE PairVariants(5000, "askfee1", "askfee2")
 BidPairs == IF Tier = "quick"
             THEN {<<Some(R(2500, "t0")), Some("bidfee2")>>, <<Some(R(0, "bad_empty")), Some("")>>,
-                  <<Some(R(1000, "plain")), Some("bidfee1")>>}
+                  <<Some(R(1000, "plain")), Some("bidfee1")>>, <<Some(R(5000, "plain")), Some("bidfee1")>>,
+                  <<Some(R(2500, "plain")), Some("")>>}
             ELSE PairVariants(2500, "bidfee1", "bidfee2")
 
 ModifyReqs ==
